@@ -58,10 +58,14 @@ def one(name, tier, procs):
                      env=env, cwd=HERE, timeout=3600)
         sigs = [l.strip().replace('signature: ', '') for l in out.splitlines()
                 if l.strip().startswith('signature:')]
+        viol = [l for l in out.splitlines() if l.startswith('VIOLATION ')]
         res['exit'] = rc
-        res['detected'] = rc == 1
+        res['detected'] = rc == 1 and bool(viol)
         res['signatures'] = sigs[:6]
-        res['status'] = 'caught' if rc == 1 else 'MISSED'
+        res['status'] = 'caught' if res['detected'] else (
+            'MISSED' if rc == 0 else 'HARNESS-ERROR')
+        if rc not in (0, 1) or (rc == 1 and not viol):
+            res['note'] = out[-400:]
         rp = [l.split('replay=')[1].strip() for l in out.splitlines()
               if l.startswith('VIOLATION') and 'replay=' in l]
         if rp and os.path.exists(rp[0]):
